@@ -282,19 +282,27 @@ def gen_real_spec(rng, k):
     det = gen_detector(rng, points=points, same_z=fam.startswith("mielens"))
     passed, full = gen_optics(rng, det, tmatrix=tm)
     spec = dict(id=k, scat=sc, theory=th, det=det, optics=passed, scaling=gen_scaling(rng), channels=None)
-    if not points and rng.random() < 0.12 and fam in ("mie", "mie_ff", "layered", "mie_sup", "multisphere", "mielens"):
+    if not points and rng.random() < 0.2 and fam in ("mie", "mie_ff", "layered", "mie_sup", "multisphere", "mielens"):
         # two illuminations: per-channel wavelength, polarisation and (mostly) scaling
-        spec["channels"] = list(CHANNELS)
+        def shuffled():
+            c = list(CHANNELS)
+            rng.shuffle(c)
+            return c
+        # the detector's illumination coordinate and every dict-valued optic list the labels in their OWN order
+        spec["channels"] = shuffled()
         det["preset"] = {}
         if det["shape"][0] == 1:
             # detector_grid((1, n), spacing, extra_dims=...) cannot be constructed (data_grid adds the z axis only
             # when len(arr) > 1 or arr.ndim == 2): an unsupported configuration, not a calculation result
             det["shape"][0] = 2
         spec["optics"] = dict(medium_index=full["medium_index"],
-                              illum_wavelen={c: u(rng, 0.45, 0.75) for c in CHANNELS},
-                              illum_polarization={c: gen_pol(rng) for c in CHANNELS})
+                              illum_wavelen={c: u(rng, 0.45, 0.75) for c in spec["channels"]},
+                              illum_polarization={c: gen_pol(rng) for c in shuffled()})
+        if rng.random() < 0.6:     # mostly: wavelength and polarisation list the labels in opposite orders
+            spec["optics"]["illum_wavelen"] = {c: spec["optics"]["illum_wavelen"][c]
+                                               for c in reversed(list(spec["optics"]["illum_polarization"]))}
         if rng.random() < 0.7:
-            spec["scaling"] = {c: gen_scaling(rng) for c in CHANNELS}
+            spec["scaling"] = {c: gen_scaling(rng) for c in shuffled()}
     return spec
 
 
@@ -362,7 +370,7 @@ def build_theory(t):
     from holopy.scattering import Mie, Multisphere, Tmatrix, MieLens
     from holopy.scattering.theory import Lens
     k = t["kind"]
-    if k in ("auto_sphere", "auto_spheres", "layered_auto"):
+    if k.startswith("auto") or k == "layered_auto":
         return "auto"
     if k in ("mie", "layered", "mie_sup"):
         return Mie()
@@ -656,6 +664,8 @@ def check_real(ctx, specs, tag, sample=False):
         if not ok:
             continue
         metas = numeric_exprs(spec, out)
+        if spec["channels"]:
+            check_channels_by_label(ctx, spec, out)
         for e, m in metas:
             num_exprs.append(e)
             num_meta.append(dict(spec=spec, m=m))
@@ -702,6 +712,44 @@ def check_real(ctx, specs, tag, sample=False):
                 ctx.disagree("attrs:%s" % nm, (
                     "metadata of the %s result is not the detector's attrs updated with the passed optics" % nm) if bit != 8 else
                     "accept / MissingParameter decision differs from prep_schema model", dict(kind="real", aspect="attrs:" + nm, **meta))
+
+
+def check_channels_by_label(ctx, spec, out):
+    """direct predicate for several illuminations: channel c of the field is the single-colour field computed with
+    c's OWN wavelength and polarisation (selected by label), whatever order the dicts list the labels in.  (The
+    per-channel model check above takes the multi-colour calc_field as its oracle, so it cannot see a field that
+    is consistently filed under the wrong label.)  Rounding measured: 0; tolerance 1e-9 of max|E|."""
+    import numpy as np
+    import xarray as xr
+    orders = [list(spec["channels"])] + [list(v) for v in spec["optics"].values() if isinstance(v, dict)]
+    if isinstance(spec["scaling"], dict):
+        orders.append(list(spec["scaling"]))
+    if any(o != orders[0] for o in orders):
+        ctx.count("real:illumination-labels-in-different-orders")
+    for chan in spec["channels"]:
+        single = dict(spec, channels=None, det=dict(spec["det"], preset={}),
+                      optics=dict(medium_index=spec["optics"]["medium_index"],
+                                  illum_wavelen=spec["optics"]["illum_wavelen"][chan],
+                                  illum_polarization=spec["optics"]["illum_polarization"][chan]),
+                      scaling=spec["scaling"][chan] if isinstance(spec["scaling"], dict) else spec["scaling"])
+        so = execute(single, what=("field", "holo"))
+        ctx.explored += 1
+        for w in ("field", "holo"):
+            if not isinstance(so[w], xr.DataArray):
+                ctx.violation("refused:single-colour", "single-colour request of channel %s refused: %s" % (chan, so[w]),
+                              dict(kind="real", spec=spec, chan=chan))
+                return
+            a = flat_values(out[w], "grid", chan, vec=(w == "field"))
+            b = flat_values(so[w], "grid", None, vec=(w == "field"))
+            scale = max(1e-300, float(np.abs(b).max()))
+            dev = float(np.abs(a - b).max()) / scale if a.shape == b.shape else float("inf")
+            if not dev <= 1e-9:
+                ctx.violation("channels:%s-by-label" % w,
+                              "channel %r of the multi-illumination %s is not the single-colour %s for that channel's own "
+                              "wavelength and polarisation (relative deviation %.3g)" % (chan, w, w, dev),
+                              dict(kind="real", spec=spec, chan=chan, what=w, deviation=dev,
+                                   multi=[complex(z) for z in np.ravel(a)[:6]], single=[complex(z) for z in np.ravel(b)[:6]]))
+                return
 
 
 def stage_real(ctx):
@@ -815,6 +863,24 @@ def gen_history_set(rng, n):
         if fam.startswith("lens"):
             th.update(lens_angle=u(rng, 0.5, 1.0), npts=[10, 12])
         specs.append(dict(id=k, scat=sc, theory=th, det=det(), optics=opt(tm), scaling=u(rng, 0.2, 1.5), channels=None))
+    # theory='auto': the default theory is chosen per call from the scatterer (for Spheres from its GEOMETRY:
+    # Multisphere up to 30 radii separation, Mie superposition beyond).  Both regimes, a single sphere and a
+    # T-matrix shape, each with a twin that names the documented default explicitly (same request otherwise).
+    r1, r2 = u(rng, 0.35, 0.5), u(rng, 0.35, 0.5)
+    c1 = [u(rng, 0.1, 0.5), u(rng, 0.1, 0.5), u(rng, 5.0, 5.5)]
+    close = dict(kind="spheres", members=[dict(kind="sphere", n=u(rng, 1.45, 1.6), r=r1, center=c1),
+                                          dict(kind="sphere", n=u(rng, 1.45, 1.6), r=r2,
+                                               center=[c1[0] + 0.2, c1[1] + 0.2, c1[2] + r1 + r2 + 0.05])])
+    rf = u(rng, 0.2, 0.25)
+    far = dict(kind="spheres", members=[dict(kind="sphere", n=u(rng, 1.45, 1.6), r=rf, center=c1),
+                                        dict(kind="sphere", n=u(rng, 1.45, 1.6), r=rf * 0.9,
+                                             center=[c1[0] + 0.2, c1[1] + 0.2, c1[2] + 40 * rf])])
+    for fam, twin, sc, tm in (("auto_spheres_close", "multisphere", close, False), ("auto_spheres_far", "mie_sup", far, False),
+                              ("auto_sphere", "mie", gen_sphere(rng), False), ("auto_tm", "tmatrix", gen_tm_scatterer(rng), True)):
+        o, a, d = opt(tm), u(rng, 0.2, 1.5), det()
+        specs.append(dict(id=len(specs), scat=sc, theory=dict(kind=fam), det=d, optics=o, scaling=a, channels=None,
+                          twin=len(specs) + 1))
+        specs.append(dict(id=len(specs), scat=sc, theory=dict(kind=twin), det=d, optics=o, scaling=a, channels=None))
     return specs
 
 
@@ -869,6 +935,24 @@ def check_history(ctx, specs, tag, perms=3, alone=False):
                               dict(kind="history", specs=specs, target=j, order_before=order[:pos], permutation=p,
                                    first_seen=first_seen[j]))
     ctx.nontriv((tag, "orders", perms))
+    # theory='auto' must behave like the default theory it documents, whatever was computed before: a difference
+    # from the explicit twin triggers the decisive test, the same auto request ALONE in a fresh interpreter
+    for j, sp in enumerate(specs):
+        t = sp.get("twin")
+        if t is None or j not in ref or t not in ref:
+            continue
+        ctx.explored += 1
+        ctx.count("history:auto-vs-explicit-default")
+        if ref[j] != ref[t]:
+            fresh = child_digests(specs, [j], tag + "auto")[0]
+            if fresh != ref[j]:
+                ctx.violation("history:auto", "a theory='auto' request (%s) returns other values after other requests than alone in a "
+                              "fresh interpreter (there it %s its documented default %s)" % (
+                                  sp["theory"]["kind"], "equals" if fresh == ref[t] else "also differs from", specs[t]["theory"]["kind"]),
+                              dict(kind="history", specs=specs, target=j, twin=t, first_seen=first_seen[j],
+                                   culprit=find_culprit(specs, j)))
+            else:
+                ctx.count("history:auto-differs-from-documented-default-but-not-by-history")
     # a fresh interpreter, another order
     order = list(range(n))[::-1]
     runs = [("reversed", order)]
@@ -904,7 +988,7 @@ def find_culprit(specs, j):
 def stage_history(ctx):
     rng = ctx.subrng("history")
     for s in range(ctx.n(1, 3)):
-        specs = gen_history_set(rng, ctx.n(8, 10))
+        specs = gen_history_set(rng, ctx.n(8, 10))      # + 4 auto requests and their 4 explicit twins
         check_history(ctx, specs, "h%d" % s, perms=3, alone=(ctx.tier == "thorough" and s == 0))
 
 
